@@ -67,6 +67,11 @@ for f in known:
         rc, o = sh(f"VERIF_REPO={WT} ./check {pid} --tier {tier}", cwd="/verif")
         lines = [l for l in o.splitlines() if l.startswith(("VIOLATION", pid + ":", "KNOWN-FINDING"))]
         chk[tier] = {"exit": rc, "lines": [l[:300] for l in lines[-4:]]}
+        m0 = re.search(r"tie_cases=(\d+)", o)
+        chk[tier]["tie_cases"] = int(m0.group(1)) if m0 else 0
+        if rc != 0 and ("problem[harness-build]" in o or chk[tier]["tie_cases"] == 0):
+            chk[tier]["not_judged"] = "harness did not build / no tie case ran: NOT a detection"
+            break
         if rc != 0:
             m = re.search(r"replay=(\S+)", o)
             dst = f"/verif/seeded/revert-{fid}"
@@ -80,7 +85,7 @@ for f in known:
     dst = f"/verif/seeded/revert-{fid}"
     os.makedirs(dst, exist_ok=True)
     open(f"{dst}/patch.diff", "w").write(rdiff)
-    caught = any(v["exit"] != 0 for v in chk.values())
+    caught = any(v["exit"] != 0 and "not_judged" not in v for v in chk.values())
     json.dump({"property": pid, "id": f"revert-{fid}", "reverts_fix_commit": commit, "reverted_commits": composite,
                "summary": f["what"], "origin": "reverse patch of the fix: commit (the original defect)",
                "needs_to_manifest": "see summary: the specific input/history of the original finding",
